@@ -107,6 +107,25 @@ def make(rule_id, pid=None):
                     cands = [c for c in v.calls.values() if (_match_call(pr, c, req) or any(_match_call(pr, c, a_) for a_ in req.get("alt", []))) and (t is None or _same_ok(pr, t, c, req.get("same", [])))]
                     key = "%s/%s/%s/%s" % (res.rule, f.path, row["id"], req.get("name", req["callee"]))
                     tdesc = "entry" if t is None else "%s (line %d)" % (t.name.split("::")[-1], t.line)
+                    # the same obligation met by assigning the whole field (`self.free_sectors = rebuilt;` instead of
+                    # clear() + push): the old content is gone just as well
+                    store_nodes = []
+                    if req.get("or_store_field"):
+                        for b_s, blk_s in enumerate(f.blocks):
+                            if blk_s["cleanup"]:
+                                continue
+                            for i_s, st_s in enumerate(blk_s["stmts"]):
+                                pj_s = st_s["place"]["proj"] if st_s["s"] == "assign" else []
+                                if pj_s and pj_s[-1].get("p") == "field" and pj_s[-1].get("name") == req["or_store_field"] and st_s["rv"]["r"] in ("use", "aggregate"):
+                                    store_nodes.append(("s", b_s, i_s))
+                    if not cands and store_nodes and row.get("mode", "follow") == "follow":
+                        starts_s = v.ok_nodes(t.bb) or [s_ for s_ in pg.succ[("t", t.bb)]] if t is not None else [pg.entry()]
+                        reach_s = pg.reach(starts_s, set(store_nodes) | err_all)
+                        if any(r_ in reach_s for r_ in pg.returns()):
+                            res.fail(Finding(res.rule, key, "%s: an Ok path after %s reaches return without %s" % (row["why"], tdesc, req.get("name", req["callee"])), f, t.term["span"] if t is not None else None))
+                        else:
+                            res.ok({"row": row["id"], "function": f.path, "trigger": tdesc, "followed_by": "a whole-field store to %s" % req["or_store_field"]}, nontrivial=True)
+                        continue
                     if not cands and row.get("or_in_callers"):
                         # the obligation may be met by whoever called this function: every caller must then perform
                         # the required call on every Ok path after its call to this function
